@@ -54,7 +54,7 @@ func LoadType(spec *Spec) (schema.Type, error) {
 func PureMapBased(s *Spec) bool {
 	pure := true
 	s.Walk(func(n *Spec) {
-		if n.Struct != "" || n.Kind == KTypedEnum {
+		if n.Struct != "" || n.Kind == KTypedEnum || n.Literal {
 			pure = false
 		}
 	})
